@@ -314,6 +314,17 @@ func (v *Val) leaves() []*Term {
 			out = append(out, f.leaves()...)
 		}
 		return out
+	case VAddr:
+		// an interior pointer used as a value: an abstract, injective name for the
+		// location (reads through it are not connected back to the field)
+		args := []*Term{v.A.Obj}
+		if v.A.Obj == nil {
+			args = nil
+		}
+		if v.A.Idx != nil {
+			args = append(args, v.A.Idx)
+		}
+		return []*Term{App("fieldaddr$"+sanitizeTag(arrName(v.A, v.A.Path)), SRef, args...)}
 	}
 	panic("leaves of " + v.String())
 }
